@@ -11,7 +11,7 @@ use miette::{Diagnostic, SourceSpan};
 use thiserror::Error;
 
 use winnow::ascii::{digit1, space0};
-use winnow::combinator::{alt, opt, preceded, separated};
+use winnow::combinator::{alt, eof, opt, preceded, separated, terminated};
 use winnow::error::{AddContext, ErrMode, ErrorKind, FromExternalError, ParserError};
 use winnow::stream::{AsChar, Stream};
 use winnow::token::{literal, take_while};
@@ -348,7 +348,7 @@ impl Version {
             });
         }
 
-        match version.parse_next(&mut input) {
+        match terminated(version, (space0, eof)).parse_next(&mut input) {
             Ok(arg) => Ok(arg),
             Err(err) => Err(match err {
                 ErrMode::Backtrack(e) | ErrMode::Cut(e) => SemverError {
